@@ -524,6 +524,12 @@ def _deep_perturb(obj, depth=3):
                 obj[k] = obj.get(k, 0) + 5
                 lab = k[0] if k else 0
                 obj[(lab,)] = obj.get((lab,), 0) - 3
+            elif obj:
+                # a plain mapping (label -> integer, label -> value, ...): change one entry and add one
+                k0 = next(iter(obj))
+                if isinstance(obj[k0], (int, float)) and not isinstance(obj[k0], bool):
+                    obj[k0] = obj[k0] + 17
+                obj["zz-perturbed-key"] = 23
         elif isinstance(obj, list):
             for v in obj:
                 if isinstance(v, (dict, list)):
@@ -570,6 +576,20 @@ def check_registry(case, st):
                     st.violation("argument-aliased|%s|%s" % (entry, tname), case,
                                  "C19 %s(%s): changing an argument after the call changed the %s (it kept a reference to its input): %s"
                                  % (entry, ", ".join(short(x, 80) for x in orig_args), tname, short(t, 300)))
+            # ... and back: growing the receiver / the result afterwards must not reach into the arguments
+            asn = [snap(a, order=False) for a in orig_args]
+            for tname, t in targets:
+                if t is None or any(t is a for a in orig_args) or not hasattr(t, "squash_key"):
+                    continue
+                for lab in ("zz-new-label", 97):
+                    g, _w = call(lambda: t.__setitem__((lab,), 1))
+                    if not isinstance(g, Raised):
+                        break
+            for i, (a, b0) in enumerate(zip(orig_args, asn)):
+                if snap(a, order=False) != b0:
+                    st.violation("argument-aliased-back|%s|arg%d" % (entry, i), case,
+                                 "C19 %s(...): adding a variable to the receiver / result after the call changed argument %d (the model kept a reference to it): %s"
+                                 % (entry, i, short(a, 300)))
         for i, (b, a) in enumerate(zip(before, after)):
             if a != b:
                 st.violation("argument-mutated|%s|arg%d" % (entry, i), case,
